@@ -425,6 +425,7 @@ class Expander:
             if modname.startswith("_fixture"):
                 continue
             # aliases first: a helper called through a local alias (`value_of = self._value_of`) must be visible to the expansion
+            plain_assignments(m.tree)
             split_chained_assignments(m.tree)
             bound_method_aliases(m.tree)
         for modname, m in self.modules.items():
@@ -1073,6 +1074,20 @@ def drop_default_arguments(modules) -> int:
     return n
 
 
+def plain_assignments(tree: ast.AST):
+    """Inside functions, `x: T = v` is `x = v` (and a bare `x: T` is nothing): annotations of locals do not run."""
+    for fn in [n for n in ast.walk(tree) if isinstance(n, ast.FunctionDef)]:
+        for owner in ast.walk(fn):
+            for field in ("body", "orelse", "finalbody"):
+                blk = getattr(owner, field, None)
+                if not (isinstance(blk, list) and blk and isinstance(blk[0], ast.stmt)):
+                    continue
+                for i, st in enumerate(blk):
+                    if isinstance(st, ast.AnnAssign) and isinstance(st.target, ast.Name):
+                        blk[i] = ast.copy_location(ast.Assign(targets=[st.target], value=st.value), st) if st.value is not None else ast.copy_location(ast.Pass(), st)
+                        ast.fix_missing_locations(blk[i])
+
+
 def split_chained_assignments(tree: ast.AST):
     """`a = self.b = E` (plain names and attribute paths only) is `self.b = E; a = self.b`: every target is bound to the one
     object E evaluates to; the attribute (if any) is written first and the others are read back from it."""
@@ -1084,6 +1099,18 @@ def split_chained_assignments(tree: ast.AST):
             i = 0
             while i < len(blk):
                 st = blk[i]
+                if (isinstance(st, ast.Assign) and len(st.targets) == 1 and isinstance(st.targets[0], ast.Tuple) and isinstance(st.value, ast.Tuple) and len(st.targets[0].elts) == len(st.value.elts)
+                        and all(isinstance(t, ast.Name) for t in st.targets[0].elts) and all(isinstance(v, (ast.Name, ast.Constant)) or (isinstance(v, ast.Attribute) and _pure_path(v)) for v in st.value.elts)):
+                    # a, b = self.x, self.y (plain paths / names / constants on the right, none of them a target): two assignments
+                    tnames = {t.id for t in st.targets[0].elts}
+                    rnames = {x.id for v in st.value.elts for x in ast.walk(v) if isinstance(x, ast.Name)}
+                    if not (tnames & rnames) and len(tnames) == len(st.targets[0].elts):
+                        new = [ast.copy_location(ast.Assign(targets=[t], value=v), st) for t, v in zip(st.targets[0].elts, st.value.elts)]
+                        for n_ in new:
+                            ast.fix_missing_locations(n_)
+                        blk[i:i + 1] = new
+                        i += len(new)
+                        continue
                 if isinstance(st, ast.Assign) and len(st.targets) > 1 and all(isinstance(t, ast.Name) or (isinstance(t, ast.Attribute) and _pure_path(t)) for t in st.targets):
                     prim = next((t for t in st.targets if isinstance(t, ast.Attribute)), st.targets[0])
                     others = [t for t in st.targets if t is not prim]
